@@ -89,6 +89,53 @@ def project(result):
     return result
 
 
+def walk_elements(root):
+    """Every Element / object class reachable from root through attributes, properties and
+    containers (own generic walk over vars(); does not rely on statham's get_children)."""
+    from statham.schema.elements import Element
+    from statham.schema.property import _Property
+    seen, out, stack = set(), [], [root]
+    while stack:
+        x = stack.pop()
+        if id(x) in seen:
+            continue
+        if isinstance(x, Element):
+            seen.add(id(x))
+            out.append(x)
+            try:
+                attrs = vars(x)
+            except TypeError:
+                attrs = {}
+            for k, v in attrs.items():
+                if k.startswith("__") or k in ("default", "const", "enum"):
+                    continue
+                stack.append(v)
+        elif isinstance(x, _Property):
+            seen.add(id(x))
+            stack.append(x.element)
+        elif isinstance(x, dict):
+            seen.add(id(x))
+            stack.extend(x.values())
+        elif isinstance(x, (list, tuple)):
+            seen.add(id(x))
+            stack.extend(x)
+    return out
+
+
+def default_ids(root):
+    """ids of the raw default objects held by the tree (returned as-is by design when invalid)."""
+    ids = set()
+    for e in walk_elements(root):
+        d = getattr(e, "default", None)
+        stack = [d]
+        while stack:
+            y = stack.pop()
+            if isinstance(y, (list, dict)):
+                ids.add(id(y))
+                stack.extend(y.values() if isinstance(y, dict) else y)
+    return ids
+
+
 # ------------------------------------------------------------------ parallel map
 def _init():
     signal.signal(signal.SIGINT, signal.SIG_IGN)
